@@ -109,6 +109,9 @@ def rule_helper_kinds(ctx: Ctx) -> None:
                 ctx.touch(m, fn)
                 a = c.args[0]
                 ok = False
+                from ..core import deref as _deref
+                if isinstance(a, ast.Name) and isinstance(_deref(fn, a), ast.Call) and call_attr(_deref(fn, a)) == "to_stabilizer":
+                    a = _deref(fn, a)         # the converted tableau was given a name first
                 if isinstance(a, ast.Call) and call_attr(a) == "to_stabilizer":
                     ok = True
                 elif isinstance(a, ast.Name):
